@@ -125,12 +125,26 @@ def kinds_per_channel(snap) -> list:
     return [tuple(s.kind for s in cs.slots if s.kind not in ("delay", "ddelay")) for cs in snap.channels.values()]
 
 
+def _compress(times, phases):
+    """Drop shift entries that change the reference by less than 1e-9 (a drift
+    correction with an off-detuning of 1e-15 records a shift of 1e-16)."""
+    ts, ps = [times[0]], [phases[0]]
+    for t, p in zip(times[1:], phases[1:]):
+        d = abs(p - ps[-1])
+        if min(d, abs(6.283185307179586 - d)) > 1e-9:
+            ts.append(t)
+            ps.append(p)
+    return tuple(ts), tuple(ps)
+
+
 def phases_close(a, b) -> bool:
     if set(a.phase) != set(b.phase):
         return False
     for basis in a.phase:
         for q, (t1, p1, u1) in a.phase[basis].items():
             t2, p2, u2 = b.phase[basis][q]
+            t1, p1 = _compress(t1, p1)
+            t2, p2 = _compress(t2, p2)
             if t1 != t2 or u1 != u2 or len(p1) != len(p2):
                 return False
             if any(min(abs(x - y), 6.283185307179586 - abs(x - y)) > 1e-9 for x, y in zip(p1, p2)):
